@@ -13,6 +13,7 @@ pub fn driver(name: &str) -> Option<Box<dyn Driver>> {
         "dispatch_rewards" => Some(Box::new(Dispatch)),
         "get_swap_info" => Some(Box::new(SwapInfo)),
         "cw20_instantiate" => Some(Box::new(Cw20Instantiate)),
+        "shim_arith" => Some(Box::new(ShimArith)),
         _ => None,
     }
 }
@@ -119,5 +120,51 @@ impl Driver for Cw20Instantiate {
             obs = json!({"sum_of_balances": sum.to_string(), "total_supply": total.to_string()});
         }
         (c, obs)
+    }
+}
+
+/// A3: the shim's arithmetic contracts against the real libraries (cosmwasm-std Uint128/Decimal, packages/bignumber),
+/// with an independent reference computed in cosmwasm_std::Uint512
+pub struct ShimArith;
+impl Driver for ShimArith {
+    fn gen(&self, rng: &mut Rng, _i: u64) -> Value {
+        let big = |rng: &mut Rng| -> u128 { match rng.next() % 4 { 0 => rng.amount(E18), 1 => rng.below(1u128 << 100), 2 => rng.below(u128::MAX), _ => rng.below(1000) } };
+        json!({"a": big(rng).to_string(), "b": (1 + big(rng) % (u128::MAX - 1)).to_string(), "d": big(rng).to_string()})
+    }
+    fn run(&self, input: &Value) -> Outcome {
+        use cosmwasm_std::{Uint512, Uint256 as CU256};
+        use cosmwasm_bignumber::{Decimal256, Uint256};
+        use std::str::FromStr;
+        let (a, b, d) = (u(&input["a"]), u(&input["b"]), u(&input["d"]));
+        let e18 = Uint512::from(E18);
+        let w = |x: u128| Uint512::from(x);
+        let fits = |x: Uint512| x <= Uint512::from(u128::MAX);
+        let mut c = BTreeMap::new();
+        // Uint128 * Decimal = floor(a*d/1e18)
+        let mf = w(a) * w(d) / e18;
+        if fits(mf) { c.insert("shim#uint128_mul_decimal".to_string(), Uint512::from((Uint128::new(a) * Decimal::new(Uint128::new(d))).u128()) == mf); }
+        // Decimal::from_ratio(a,b) = floor(a*1e18/b)
+        let rf = w(a) * e18 / w(b);
+        if fits(rf) { c.insert("shim#decimal_from_ratio".to_string(), Uint512::from(Decimal::from_ratio(a, b).atomics().u128()) == rf); }
+        // multiply_ratio
+        let mr = w(a) * w(d) / w(b);
+        if fits(mr) { c.insert("shim#multiply_ratio".to_string(), Uint512::from(Uint128::new(a).multiply_ratio(d, b).u128()) == mr); }
+        // Decimal::inv = floor(1e36/d)
+        if d != 0 { let iv = e18 * e18 / w(d); if fits(iv) { c.insert("shim#decimal_inv".to_string(), Uint512::from(Decimal::new(Uint128::new(d)).inv().unwrap().atomics().u128()) == iv); } }
+        // Decimal * Decimal
+        let dd = w(a) * w(d) / e18;
+        if fits(dd) { c.insert("shim#decimal_mul_decimal".to_string(), Uint512::from((Decimal::new(Uint128::new(a)) * Decimal::new(Uint128::new(d))).atomics().u128()) == dd); }
+        // bignumber: Decimal -> Decimal256 is value preserving; Uint256 * Decimal256 = floor(a*d/1e18); from_ratio; sub/add
+        let d256 = Decimal256::from(Decimal::new(Uint128::new(d)));
+        c.insert("shim#decimal_to_256_value_preserving".to_string(), d256.to_string() == Decimal::new(Uint128::new(d)).to_string());
+        let p = Uint256::from(a) * d256;
+        c.insert("shim#uint256_mul_decimal256".to_string(), CU256::from_str(&p.to_string()).map(|x| Uint512::from(x) == mf).unwrap_or(false));
+        let r256 = Decimal256::from_ratio(Uint256::from(a).0, Uint256::from(b).0);
+        // r256.0 is atomics as bigint U256
+        c.insert("shim#decimal256_from_ratio".to_string(), CU256::from_str(&r256.0.to_string()).map(|x| Uint512::from(x) == rf).unwrap_or(false));
+        if fits(mf) { let back: u128 = p.into(); c.insert("shim#uint256_to_u128".to_string(), Uint512::from(back) == mf); }
+        let s = Decimal256::from(Decimal::new(Uint128::new(a))) + d256;
+        c.insert("shim#decimal256_add".to_string(), CU256::from_str(&s.0.to_string()).map(|x| Uint512::from(x) == w(a) + w(d)).unwrap_or(false));
+        (c, json!({}))
     }
 }
